@@ -573,19 +573,24 @@ class Fn:
 # stream-dataflow translation: which random stream does every repetition of the single-setting entry point draw from?
 SIM = "quara/simulation/standard_qtomography_simulation.py"
 STD = "quara/protocol/qtomography/standard/standard_%s.py"
+# the introspection test of the dispatch helper is not translated but CHECKED textually: "generate has a parameter seed_or_generator"
+TAKES_STREAM_SRC = ("def _takes_stream(generation_setting) -> bool:\n    _f = generation_setting.generate\n"
+                    "    return 'seed_or_generator' in _f.__code__.co_varnames[:_f.__code__.co_argcount]")
 STREAM_FUNCS = [
     dict(file="quara/utils/number_util.py", name="to_stream", params={"seed_or_generator": "sval"}, ret="sval"),
 ] + [dict(file=STD % f, cls=c, name="generate_empi_dists_sequence", coq="%s_generate_empi_dists_sequence" % c, params={"seed_or_generator": "sval"}, ret="key")
      for f, c in (("qst", "StandardQst"), ("povmt", "StandardPovmt"), ("qpt", "StandardQpt"), ("qmpt", "StandardQmpt"))] + [
     dict(file=SIM, name="_generate_empi_dists_and_calc_estimate", coq="one_repetition", params={"seed_or_generator": "sval"}, ret="key"),
     dict(file=SIM, name="generate_empi_dists_and_calc_estimate", params={"iteration": "nat", "seed_or_generator": "sval"}, ret="lkey"),
+    dict(file="quara/simulation/standard_qtomography_simulation_flow.py", name="_generate_with_stream", coq="generate_with_stream",
+         params={"generation_setting": "setting", "stream_qoperation": "sval"}, ret="genkey", checked={"_takes_stream": TAKES_STREAM_SRC}),
     dict(file=SIM, name="execute_simulation", params={"seed_or_generator": "sval"}, ret="lkey",
          attrs={"simulation_setting.seed_data": ("seed_data", "sval"), "simulation_setting.n_rep": ("n_rep", "nat")}),
 ]
 # receivers of  <obj>.generate_empi_dists_sequence(..., seed_or_generator=X) : the experiment (one task-draw on the stream X,
 # Model/C15_PySem.experiment_draw) / the tomography object (one of the four translated methods: the section variable tomo_generate)
 RECEIVERS = {"tmp_experiment": "experiment_draw origin", "qtomography": "tomo_generate"}
-SCOQTY = {"sval": "sval", "nat": "nat", "key": "key", "lkey": "list key"}
+SCOQTY = {"sval": "sval", "nat": "nat", "key": "key", "lkey": "list key", "setting": "bool", "genkey": "genkey"}
 
 
 class StreamFn:
@@ -651,6 +656,16 @@ class StreamFn:
                     if n_ != "empi_dists_sequences" and self.mentions(v_, env):
                         self.value(v_, env, lambda t, ty: "" if ty in ("lkey", "key") else fail(e, "SimulationResult(%s=<%s>)" % (n_, ty)))
                 return self.value(kws["empi_dists_sequences"], env, k)
+            if isinstance(f, ast.Attribute) and f.attr == "generate" and isinstance(f.value, ast.Name) and env.get(f.value.id, (None, None))[1] == "setting":
+                st_ = env[f.value.id][0]
+                v = self.fresh("o")
+                if not e.args and not kws:
+                    return "sbind (setting_generate_default origin %s) (fun %s => %s)" % (st_, v, k(v, "genkey"))
+                arg = e.args[0] if (len(e.args) == 1 and not kws) else (kws.get("seed_or_generator") if (not e.args and set(kws) == {"seed_or_generator"}) else None)
+                if arg is None:
+                    fail(e, "arguments of generate")
+                return self.value(arg, env, lambda t, ty: "sbind (setting_generate origin %s %s) (fun %s => %s)" % (st_, t, v, k(v, "genkey")) if ty == "sval"
+                                  else fail(e, "generate(<%s>)" % ty))
             name = f.id if isinstance(f, ast.Name) else (f.attr if isinstance(f, ast.Attribute) else None)
             if name == "generate_empi_dists_sequence" and isinstance(f, ast.Attribute) and isinstance(f.value, ast.Name) and f.value.id in RECEIVERS:
                 if "seed_or_generator" not in kws:
@@ -712,6 +727,9 @@ class StreamFn:
         if isinstance(t, ast.Call) and isinstance(t.func, ast.Name) and t.func.id == "isinstance" and len(t.args) == 2 and isinstance(t.args[0], ast.Name) \
                 and env.get(t.args[0].id, (None, None))[1] == "sval" and ast.unparse(t.args[1]) in ("(int, np.integer)", "(np.integer, int)"):
             return "(sv_is_int %s)" % env[t.args[0].id][0]
+        if isinstance(t, ast.Call) and isinstance(t.func, ast.Name) and t.func.id in self.spec.get("checked", {}) and len(t.args) == 1 and not t.keywords \
+                and isinstance(t.args[0], ast.Name) and env.get(t.args[0].id, (None, None))[1] == "setting":
+            return env[t.args[0].id][0]
         fail(t, "test %s" % ast.unparse(t))
 
     def rebound(self, body, env):
@@ -953,6 +971,58 @@ def spawn_section(repo):
             % (FLOW, f.lineno, f.end_lineno, "\n  ".join(lets), ret))
 
 
+# ====================================================================================================================
+# execute_estimation: which estimator / loss / algo OBJECT does every repetition's task receive?
+def estimation_section(repo):
+    """The function must contain exactly one joblib.Parallel(<...>)([joblib.delayed(_execute_estimation)(<args>) for <v> in
+    empi_dists_sequences]) ; the arguments bound to the parameters estimator / loss / algo of _execute_estimation must be either
+    simulation_setting.<name> (the shared object) or copy.deepcopy(simulation_setting.<name>) (a copy made per task, because the
+    expression is evaluated once per element of the comprehension); the data parameter must receive the loop variable."""
+    tree = ast.parse(open(os.path.join(repo, SIM)).read())
+    f = find_def(tree, dict(name="execute_estimation"))
+    task = find_def(tree, dict(name="_execute_estimation"))
+    tparams = [a.arg for a in task.args.args]
+    calls = [x for x in ast.walk(f) if isinstance(x, ast.Call) and isinstance(x.func, ast.Call) and ast.unparse(x.func.func) == "joblib.Parallel"]
+    if len(calls) != 1 or len(calls[0].args) != 1 or not isinstance(calls[0].args[0], ast.ListComp):
+        fail(f, "expected exactly one joblib.Parallel(...)([... for ... in ...])")
+    lc = calls[0].args[0]
+    g = lc.generators[0]
+    if len(lc.generators) != 1 or g.ifs or not isinstance(g.target, ast.Name) or ast.unparse(g.iter) != "empi_dists_sequences":
+        fail(lc, "task list must be a comprehension over empi_dists_sequences")
+    c = lc.elt
+    if not (isinstance(c, ast.Call) and isinstance(c.func, ast.Call) and ast.unparse(c.func.func) == "joblib.delayed" and len(c.func.args) == 1
+            and ast.unparse(c.func.args[0]) == "_execute_estimation"):
+        fail(lc, "task must be joblib.delayed(_execute_estimation)(...)")
+    given = dict(zip(tparams, c.args))
+    for kw in c.keywords:
+        if kw.arg not in tparams or kw.arg in given:
+            fail(c, "task argument %s" % kw.arg)
+        given[kw.arg] = kw.value
+    if ast.unparse(given.get("empi_dists_seq", ast.Constant(None))) != g.target.id:
+        fail(c, "the task is not handed its own empirical distributions")
+    refs = {}
+    for name in ("estimator", "loss", "algo"):
+        a = given.get(name)
+        u = ast.unparse(a) if a is not None else None
+        if u == "simulation_setting.%s" % name:
+            refs[name] = "OShared"
+        elif u == "copy.deepcopy(simulation_setting.%s)" % name:
+            refs[name] = "OFresh"
+        else:
+            fail(c, "argument for %s: %s" % (name, u))
+    # no other statement of the function may touch the three objects
+    for st in f.body:
+        if any(x is calls[0] for x in ast.walk(st)):
+            continue
+        for x in ast.walk(st):
+            if isinstance(x, ast.Attribute) and ast.unparse(x) in ("simulation_setting.estimator", "simulation_setting.loss", "simulation_setting.algo"):
+                fail(st, "the setting's estimator / loss / algo are used outside the task list")
+    return ("(* %s : execute_estimation, lines %d-%d: the objects handed to every repetition's task *)\n"
+            "Definition gen_execute_estimation_task : est_task := {| t_estimator := %s; t_loss := %s; t_algo := %s |}.\n"
+            "Definition gen_execute_estimation_tasks (n_rep : nat) : list est_task := repeat gen_execute_estimation_task n_rep.\n"
+            % (SIM, f.lineno, f.end_lineno, refs["estimator"], refs["loss"], refs["algo"]))
+
+
 def find_def(tree, spec):
     scope = tree.body
     if spec.get("cls"):
@@ -972,6 +1042,10 @@ def stream_section(repo):
         if spec["file"] not in trees:
             trees[spec["file"]] = ast.parse(open(os.path.join(repo, spec["file"])).read())
         fd = find_def(trees[spec["file"]], spec)
+        for hn, want in spec.get("checked", {}).items():
+            got = ast.unparse(find_def(trees[spec["file"]], dict(name=hn)))
+            if got != want:
+                raise Unsupported("helper %s is not the checked primitive:\n%s" % (hn, got))
         if spec["name"] == "_generate_empi_dists_and_calc_estimate":
             text.append("(* the tomography object's generate_empi_dists_sequence: any of the four methods above (coq/gen/C15_Equiv.v proves them equal) *)\n"
                         "Variable tomo_generate : sval -> sm key.\n")
@@ -1041,7 +1115,7 @@ def main(repo, out):
                 "From Coq Require Import List Arith Bool.\nFrom QV.Core Require Import OF Sums Mat.\nFrom QV.Model Require Import QObj C15_PhysCheck C15_PySem.\n"
                 "From Coq Require Import ZArith.\nFrom QV.Model Require Import C15_Dataflow.\n"
                 "Import ListNotations.\n\nSection Gen.\nContext (F : OF).\nVariable th : thresholds F.\n\n" + "\n".join(text) + "\nEnd Gen.\n\n"
-                + stream_section(repo) + "\n" + spawn_section(repo))
+                + stream_section(repo) + "\n" + spawn_section(repo) + "\n" + estimation_section(repo))
 
 
 if __name__ == "__main__":
